@@ -502,6 +502,11 @@ def run_C(case):
         ocp.set_der(x, u + s[0])
         ocp.add_objective(ocp.sum(ca.sumsqr(s) + u ** 2, include_last=True))
         ocp.add_objective(ocp.at_tf(x ** 2))
+        ds = None
+        if d >= 1 and case.get("with_der", True):
+            # der() of the signal, requested before the transcription and used in the problem
+            ds = C.call("der(bspline)", ocp.der, s)
+            ocp.add_objective(0.1 * ocp.sum(ca.sumsqr(ds)))
         if case["cls"] == "MS":
             ocp.method(rockit.MultipleShooting(N=N, M=M, intg="rk", grid=build.make_grid(case["grid"])))
         else:
@@ -515,6 +520,10 @@ def run_C(case):
         for g, kw in tags:
             tt, vv = C.call("sample:%s" % g, ocp.sample, s, grid=g, **kw)
             outs += [ca.MX(tt), ca.MX(vv)]
+        if ds is not None:
+            for g, kw in tags:
+                tt, vv = C.call("sample(der):%s" % g, ocp.sample, ds, grid=g, **kw)
+                outs += [ca.MX(tt), ca.MX(vv)]
         F = ca.Function("s", [view.x, view.p], outs)
     except C.RockitRaised as e:
         res["violations"].append(C.exc_violation(ID, e, "C|%s|d%d" % (case["cls"], d)))
@@ -547,6 +556,30 @@ def run_C(case):
                               "parameter" if case["param"] else "variable", d, case["cls"],
                               " / root" if case["cls"] == "DC" else "", d, worst)})
             return res
+        if ds is not None and np.linalg.matrix_rank(A) < A.shape[1]:
+            # too few distinct sample times to identify the N+d coefficients: the derivative is not determined
+            res["counters"]["der_underdetermined"] = res["counters"].get("der_underdetermined", 0) + 1
+        elif ds is not None:
+            # der(s) sampled anywhere = analytic derivative (physical time) of that one spline
+            off = 2 * len(tags)
+            for j, (g, kw) in enumerate(tags):
+                td = vals[off + 2 * j].reshape(-1)
+                vd = vals[off + 2 * j + 1].reshape(dim, -1)
+                inner = np.array([not np.any(np.abs(t_ - xi_phys) < 1e-9 * (1 + abs(t_))) for t_ in td]) if d == 1 \
+                    else np.ones(len(td), dtype=bool)
+                for r_i, row in enumerate(V_all):
+                    coef, *_ = np.linalg.lstsq(A, row, rcond=None)
+                    want = spline_eval(list(xi_phys), d, coef.reshape(1, -1), np.clip(td, xi_phys[0], xi_phys[-1]), nu=1)[0]
+                    res["evals"] += 1
+                    res["counters"]["der_points"] = res["counters"].get("der_points", 0) + int(np.sum(inner))
+                    if vd.shape[1] != len(td) or (np.any(inner) and np.max(np.abs(vd[r_i][inner] - want[inner])) >
+                                                   1e-7 * (1 + np.max(np.abs(want)))):
+                        res["violations"].append({
+                            "kind": "der-bspline", "mech": "C17|C|der-of-bspline-signal|%s" % case["cls"],
+                            "detail": "der(bspline %s, order %d) under %s on grid %s%s: sampled %s, analytic derivative of "
+                                      "the sampled spline %s" % ("parameter" if case["param"] else "variable", d, case["cls"],
+                                                                 g, kw, C.short(vd[r_i][:5]), C.short(want[:5]))})
+                        return res
     res["nontrivial"] = True
     res["sample"] = {"method": case["cls"], "order": d, "N": N, "points": int(len(T_all))}
     return res
